@@ -9,6 +9,7 @@ import (
 	"strconv"
 	"strings"
 	"time"
+	"unicode"
 
 	"github.com/honeycombio/refinery/config"
 )
@@ -459,8 +460,11 @@ func yamlf(a any) string {
 		}
 		hasSingleQuote := strings.Contains(v, "'")
 		hasDoubleQuote := strings.Contains(v, `"`)
+		// a single-quoted YAML scalar has no escapes and folds a line break
+		// into a blank, so it cannot carry control characters
+		hasControl := strings.ContainsFunc(v, unicode.IsControl)
 		switch {
-		case hasDoubleQuote && !hasSingleQuote:
+		case hasDoubleQuote && !hasSingleQuote && !hasControl:
 			return fmt.Sprintf(`'%s'`, v)
 		default:
 			return fmt.Sprintf("%#v", v)
